@@ -9,8 +9,6 @@ RC = [
  ("np.array([x, y], ndmin=3): the ndmin axes are not squeezed back for list input, so the gradient of an element has the wrong shape (reverse) and the tangent is duplicated (forward)",
   [("C01", "array", "rev", "wrong-shape", "ndmin:True,list_input:True"), ("C05", "array", "rev", "wrong-structure", "ndmin:True,list_input:True"),
    ("C02", "array", "fwd", "wrong-value", "ndmin:True,list_input:True")]),
- ("np.cross with operands that broadcast against each other: the VJP is not summed back to the smaller operand's shape",
-  [("C01", "cross", "rev", "wrong-shape", "broadcast:True"), ("C05", "cross", "rev", "wrong-structure", "broadcast:True")]),
  ("np.diag of a non-square 2-D array: the VJP np.diag(g, k) is square, not of the argument's shape",
   [("C01", "diag", "rev", "wrong-shape", "rank:2,square:False"), ("C05", "diag", "rev", "wrong-structure", "rank:2,square:False")]),
  ("np.diagonal(axis1=-1, axis2=-2) of an array whose last two dimensions differ: make_diagonal rebuilds a square block",
